@@ -374,7 +374,9 @@ def dump_content(tree, round_numbers):
             return x
         head = x[0] if x and isinstance(x[0], str) else None
         if head in ("exp", "mult"):
-            return (head, r15(x[1]) if round_numbers else repr(float(x[1])) if x[1] not in ("inf", "-inf", "nan", "-nan") else x[1])
+            if x[1] in ("inf", "-inf", "nan", "-nan"):
+                return (head, x[1])
+            return (head, repr(float(r15(x[1]))) if round_numbers else repr(float(x[1])))
         if head in ("math", "testvalue", "resetvalue"):
             return (head, math_text(_undq(x[1][1])))
         if head == "units" and len(x) == 3 and isinstance(x[1], tuple) and x[2] in ("linked", "unlinked", "foreign"):
